@@ -2,6 +2,9 @@ module verifharness
 
 go 1.14
 
-require github.com/marekgalovic/anndb v0.0.0
+require (
+	github.com/marekgalovic/anndb v0.0.0
+	github.com/satori/go.uuid v1.2.0
+)
 
 replace github.com/marekgalovic/anndb => /repo
